@@ -301,6 +301,52 @@ def meanM (cfg : MeanCfg) : Machine MeanSt (Item Int) (Item Rat) where
   compute s := (s, Mean.compute cfg s)
   reset := Mean.reset cfg
 
+/-! ## Mean with `sum_seq = DSum()` (the documented accurate mean)
+
+The same code as above (`Mean.fill/compute/reset` with a sum sequence); `float(sum_)` of the `Decimal` total is
+its exact value here. -/
+
+/-- `b^e` for an integer exponent -/
+def powZ (b : Rat) (e : Int) : Rat := if 0 ≤ e then b ^ e.toNat else 1 / b ^ (-e).toNat
+
+/-- the value of a decimal -/
+def Dec.toRat (d : Dec) : Rat := (d.coef : Rat) * powZ 10 d.exp
+
+/-- the value of a float / int given as `m × 2^e` -/
+def Dy.toRat (x : Dy) : Rat := (x.m : Rat) * powZ 2 x.e
+
+structure MeanDSt where
+  /-- the state of `sum_seq` -/
+  seq : DSumSt
+  count : Nat
+  ctx : Ctx
+  deriving DecidableEq, Repr
+
+/-- `Mean.fill`: `sum_seq.fill(data)` (bare data); count; context -/
+def MeanD.fill (s : MeanDSt) (v : Item Dy) : MeanDSt := ⟨DSum.fill s.seq ⟨v.data, none⟩, s.count + 1, v.context⟩
+
+/-- `Mean.compute` with a sum sequence -/
+def MeanD.compute (passOnEmpty : Bool) (s : MeanDSt) : Except Err (List (Item Rat)) :=
+  if s.count = 0 then
+    if passOnEmpty then .ok [] else .error .zeroDivision
+  else
+    match [DSum.compute s.seq] with
+    | [] => .ok []
+    | s0 :: rest =>
+      let mean : Rat := s0.data.toRat / (s.count : Rat)
+      .ok (withCtx mean (s.ctx.update s0.context)
+        :: rest.map (fun sv => withCtx sv.data.toRat (s.ctx.update sv.context)))
+
+/-- `Mean.reset`: `sum_seq.reset()`; count; context -/
+def MeanD.reset (s : MeanDSt) : MeanDSt := ⟨DSum.reset s.seq, 0, []⟩
+
+/-- `Mean(DSum(), pass_on_empty)` -/
+def meanDM (passOnEmpty : Bool) : Machine MeanDSt (Item Dy) (Item Rat) where
+  init := ⟨⟨⟨0, 0⟩, 28, []⟩, 0, []⟩
+  fill s v := (MeanD.fill s v, none)
+  compute s := (s, MeanD.compute passOnEmpty s)
+  reset := MeanD.reset
+
 /-! ## VarianceMeanCount (`lena/math/elements.py:263-396`), `sum_sq` and `sum_` the default `Sum()` -/
 
 structure VmcCfg where
@@ -542,9 +588,10 @@ structure GraphCfg where
   /-- the `scale` argument -/
   scale0 : Leaf
   sort : Bool
-  /-- `reset` restores `self._scale` to the initial scale.  `false` transcribes
-  `Graph.reset` as it is in the pinned tree (only points and context are reset); `true` is the
-  code with the repair proposed in `notes/C09_defect_1.patch` -/
+  /-- `reset` restores `self._scale` to the initial scale: `true` transcribes `Graph.reset` as it is in
+  /repo now (commit 7591aa2, `self._scale = self._init_context["scale"]`); `false` is `Graph.reset` before
+  that repair (only points and context were reset), kept so that the defect stays exhibited
+  (`graph_pinned_reset_not_fresh`) and the check reports it with a failing input if it comes back -/
   resetScale : Bool
 
 structure GraphSt where
